@@ -61,6 +61,13 @@ func verifAddr(tag string, local bool) lang.Address {
 		}
 		return lang.Address{lang.RootStep{Name: "each"}, lang.AttrStep{Name: "value"}}
 	}
+	if verifMode == 0 {
+		// visibility: targets with and without an absolute address
+		if verifChoice(tag+"a0", 2) == 0 {
+			return nil
+		}
+		return lang.Address{lang.RootStep{Name: "var"}, lang.AttrStep{Name: "foo"}}
+	}
 	switch verifPick(tag+"a", 4, 2, 1) {
 	case 0:
 		return nil
@@ -81,7 +88,8 @@ func verifMkTarget(tag string, nested bool) Target {
 		t.RangePtr = &r
 	}
 	if len(t.LocalAddr) > 0 && verifPick(tag+"hastfr", 2, 0, 1) == 1 {
-		r := verifRange(tag+"tfr", "f.tf")
+		// the block the local name belongs to may be in another file of the same path
+		r := verifRange(tag+"tfr", []string{"f.tf", "g.tf"}[verifPick(tag+"tfrfile", 2, 0, 0)])
 		t.TargetableFromRangePtr = &r
 	}
 	if nested {
@@ -209,7 +217,11 @@ func VerifP_C08_RoundTrip(mode int) {
 				ok = true
 			}
 		}
-		verifAssert(ok, "C08:accepted-candidate-resolves-to-its-declaration")
+		where := "[same-file]"
+		if t.TargetableFromRangePtr != nil && t.TargetableFromRangePtr.Filename != origin.Filename {
+			where = "[block-in-other-file]"
+		}
+		verifAssert(ok, "C08:accepted-candidate-resolves-to-its-declaration"+where)
 	}
 	verifReach("end")
 }
